@@ -197,12 +197,20 @@ def _ancestors(tag: Any) -> List[Any]:
     return r
 
 
+def _summary_prod(a: Any) -> str:
+    """A link inside a summary: an object link (taglink) or a reference to a target inside the docstring it was cut from."""
+    href = a.get("href") or ""
+    return "summaryLocalRef" if href.startswith("#") and "internal-link" not in _classes(a) else "summaryDoc"
+
+
 def _producer(a: Any, page: str, anc: List[Any], indexpage: bool = False) -> str:
     """Which link producer of the templates wrote this <a> / <link> / <script> / <img> ?"""
     if a.name != "a":
         return "static"
     if "rst-toc-backref" in _classes(a):               # docutils: section title -> its entry in the table of contents
         return "tocBackref"
+    if "fn-backref" in _classes(a) or "rst-fn-backref" in _classes(a):       # docutils: footnote -> its reference(s)
+        return "fnBackref"
     names = [(t.name, _classes(t), t.get("id")) for t in anc]
 
     def inside(name: Optional[str] = None, cls: Optional[str] = None, id_: Optional[str] = None) -> bool:
@@ -240,7 +248,7 @@ def _producer(a: Any, page: str, anc: List[Any], indexpage: bool = False) -> str
                 return "classIndex"
             if gp is not None and gp.name == "li" and page == "classIndex" and first is par:
                 return "classIndexExternal"
-        return "summaryDoc"
+        return _summary_prod(a)
     if inside("h1"):
         return "namespace"
     if inside(cls="class-signature"):
@@ -269,7 +277,7 @@ def _producer(a: Any, page: str, anc: List[Any], indexpage: bool = False) -> str
             if idx == 1 and a.parent is not None and a.parent.name == "code" and a.parent.parent is td:
                 tr = td.parent
                 return "baseTable" if any(c.startswith("base") for c in _classes(tr)) else "childTable"
-            return "summaryDoc"
+            return _summary_prod(a)
     if inside(cls="extrasDocstring"):
         href = a.get("href") or ""
         if "sourceLink" in _classes(a):
